@@ -478,7 +478,9 @@ def xsd_repr(value: AnyXSDType) -> str:
 
 def _serialize_date_tzinfo(date: Union[Date, GYear, GMonth, GDay, GYearMonth, GMonthDay]) -> str:
     if date.tzinfo is not None:
-        if not isinstance(date, Date):
+        if isinstance(date, GMonthDay):
+            date = date.into_date(2000)  # a leap year: --02-29 exists only there
+        elif not isinstance(date, Date):
             date = date.into_date()
         offset: datetime.timedelta = date.tzinfo.utcoffset(datetime.datetime(date.year, date.month, date.day, 0, 0, 0))
         offset_seconds = offset.total_seconds()
